@@ -559,6 +559,9 @@ BUILTIN_VALUES = [
     'bytearray(b"ab")', 'memoryview(b"ab")', 'object()', 'Decimal("1.10")', 'Fraction(1, 3)',
     'date(2020, 1, 2)', 'iter([1])', '(i for i in [1])', 'math', 'property()', 'b"ab".decode',
     '"ab".upper', 'len', '(lambda: 1)', 'str.upper', '[b"\\xe9"]', '{"k": b"v"}', '(b"a", "b", 3)',
+    '0.0', '-1.5', '2**70', 'float("-inf")', '0j', 'complex(0.0, -0.0)', 'Decimal("-0")', 'Decimal("1E+1")',
+    'range(0)', 'range(5, 5)', '(0.0,)', '(-0.0,)', '{1: 0.0}', '{True: -0.0}', 'frozenset([-0.0])',
+    'timedelta(days=1)', 'datetime(2020, 1, 1, 12, 0, tzinfo=timezone.utc)',
 ]
 CLASS_VALUES = ['int', 'str', 'bytes', 'object', 'type', 'dict', 'Exception', 'KeyError', 'Plain',
                 'PlainObj', 'WithStr', 'Meta', 'ExtBase', 'Decimal']
@@ -567,6 +570,9 @@ CLASS_VALUES = ['int', 'str', 'bytes', 'object', 'type', 'dict', 'Exception', 'K
 def _value_env():
     import math
     from datetime import date
+    from datetime import datetime
+    from datetime import timedelta
+    from datetime import timezone
     from decimal import Decimal
     from fractions import Fraction
 
@@ -592,7 +598,7 @@ def _value_env():
     class ExtBase(Base):
         pass
 
-    env = dict(math=math, date=date, Decimal=Decimal, Fraction=Fraction, Plain=Plain, PlainObj=PlainObj,
+    env = dict(math=math, date=date, datetime=datetime, timedelta=timedelta, timezone=timezone, Decimal=Decimal, Fraction=Fraction, Plain=Plain, PlainObj=PlainObj,
                WithStr=WithStr, Meta=Meta, ExtBase=ExtBase)
     return env
 
@@ -868,3 +874,195 @@ def plus_model(ast, val, quoted, codec):
         return out
 
     return R(L(ast))
+
+
+# ------------------------------------------------------------------ conversion histories (part F)
+# The statement demands the str() form for EVERY insertion, whatever the process converted before.
+# A history is a list of steps executed in one process against shared, compiled templates:
+#     ['ins', expr, site key, encoding]        insert eval(expr) through one value site
+#     ['do', statement]                        mutate an object created by the setup
+#     ['seq', [expr, ...], seq-site key, enc]  ONE rendering that inserts all the values
+# `expr` is evaluated in history_env() plus the names bound by the plan's setup ([[name, expr], ...]):
+# a setup name re-inserts the SAME object, a constructor expression makes a fresh object every time.
+# The families group values that compare (and mostly hash) equal but print differently, inside one
+# class and across classes -- what any remembered / shared conversion result would confuse.
+import enum as _enum
+
+
+class Amount(float):
+    """A float with a unit: numerically equal instances print differently."""
+
+    def __new__(cls, value, unit):
+        self = float.__new__(cls, value)
+        self.unit = unit
+        return self
+
+    def __str__(self):
+        return '%.2f %s' % (float(self), self.unit)
+
+
+class Tagged(int):
+    def __new__(cls, value, tag):
+        self = int.__new__(cls, value)
+        self.tag = tag
+        return self
+
+    def __str__(self):
+        return '%d#%s' % (int(self), self.tag)
+
+
+class Level(_enum.IntEnum):
+    LOW = 1
+    HIGH = 2
+
+
+class Named(_enum.IntEnum):
+    ONE = 1
+    UNO = 1
+    TWO = 2
+
+    def __str__(self):
+        return 'Named:' + self.name
+
+
+class Perm(_enum.IntFlag):
+    R = 1
+    W = 2
+
+
+class Eq:
+    """Instances with the same key are equal and hash alike; the text is their own."""
+
+    def __init__(self, key, text):
+        self.key, self.text = key, text
+
+    def __eq__(self, other):
+        return isinstance(other, Eq) and other.key == self.key
+
+    def __hash__(self):
+        return hash(self.key)
+
+    def __str__(self):
+        return self.text
+
+
+class Txt:
+    def __init__(self, text):
+        self.text = text
+
+    def __str__(self):
+        return self.text
+
+
+_history_env = None
+
+
+def history_env():
+    global _history_env
+    if _history_env is None:
+        from datetime import date
+        from datetime import datetime
+        from datetime import time
+        from datetime import timedelta
+        from datetime import timezone
+        from decimal import Decimal
+        from fractions import Fraction
+        _history_env = dict(Decimal=Decimal, Fraction=Fraction, datetime=datetime, date=date, time=time,
+                            timedelta=timedelta, timezone=timezone, Amount=Amount, Tagged=Tagged, Level=Level,
+                            Named=Named, Perm=Perm, Eq=Eq, Txt=Txt, CustomStrError=CustomStrError)
+    return dict(_history_env)
+
+
+HISTORY_FAMILIES = {
+    'float zeros': ['0.0', '-0.0'],
+    'zero across classes': ['0', 'False', '0.0', '-0.0', '0j', 'complex(-0.0, 0.0)', 'complex(0.0, -0.0)',
+                            'Decimal("0")', 'Decimal("-0")', 'Decimal("0.00")', 'Fraction(0)'],
+    'one across classes': ['1', 'True', '1.0', 'Decimal("1")', 'Decimal("1.0")', 'Decimal("1.00")',
+                           'Fraction(1)', 'Level.LOW', 'Named.ONE', 'Perm.R', '(1+0j)'],
+    'decimal spellings': ['Decimal("10")', 'Decimal("1E+1")', 'Decimal("10.0")', 'Decimal("1.0E1")',
+                          'Decimal("-0E-3")', 'Decimal("0E+2")'],
+    'float with unit': ['Amount(5, "EUR")', 'Amount(5, "USD")', '5.0', 'Amount(5.0, "<&>")', '5'],
+    'int with tag': ['Tagged(7, "a")', 'Tagged(7, "b")', '7', 'Tagged(7, "\xe9")', '7.0'],
+    'enum members': ['Level.HIGH', 'Named.TWO', '2', 'Perm.W', 'Named.UNO', 'Named.ONE', 'Level.LOW'],
+    'big and small numbers': ['2**70', 'float(2**70)', '-2**70', '1e100', '10**100', '1e-07', 'Decimal("1E-7")',
+                              'float("inf")', 'float("-inf")', 'Decimal("Infinity")'],
+    'tuples of zeros': ['(0.0,)', '(-0.0,)', '(0,)', '(False,)', '(0.0, -0.0, 0)', '(-0.0, 0.0, False)'],
+    'frozensets': ['frozenset([0.0])', 'frozenset([-0.0])', 'frozenset([False])', 'frozenset([0])',
+                   'frozenset([1])', 'frozenset([True])'],
+    'unhashable containers': ['[0.0]', '[-0.0]', '[False]', '{1: 0.0}', '{True: -0.0}', '{1.0: 0}', '{1}', '{True}',
+                              '{1.0}'],
+    'empty ranges': ['range(0)', 'range(0, 0)', 'range(5, 5)', 'range(3, 1)', 'range(0, 0, 2)', 'range(1, 2)',
+                     'range(1, 2, 5)'],
+    'aware datetimes': ['datetime(2020, 1, 1, 12, 0, tzinfo=timezone.utc)',
+                        'datetime(2020, 1, 1, 13, 0, tzinfo=timezone(timedelta(hours=1)))',
+                        'datetime(2020, 1, 1, 7, 0, tzinfo=timezone(timedelta(hours=-5)))',
+                        'timedelta(hours=24)', 'timedelta(days=1)'],
+    'equal objects with own text': ['Eq(1, "first")', 'Eq(1, "second")', 'Eq(1, "<third> & \xe9")',
+                                    'Eq(True, "fourth")', 'Eq(1.0, "\u20ac")'],
+    'text objects': ['Txt("a")', 'Txt("b")', 'Txt("\xe9<c>")', 'Txt("")', 'Txt("a")'],
+    'exceptions with equal arguments': ['ValueError(0.0)', 'ValueError(-0.0)', 'ValueError(0)', 'ValueError(False)',
+                                        'KeyError(1)', 'KeyError(True)', 'KeyError(1.0)',
+                                        'ValueError(Amount(5, "EUR"))', 'ValueError(Amount(5, "USD"))',
+                                        'Exception(1, 1.0)', 'Exception(True, 1)', 'Exception(1.0, True)',
+                                        'CustomStrError(0.0)', 'CustomStrError(-0.0)'],
+}
+EXCEPTION_FAMILIES = ('exceptions with equal arguments',)
+# fresh objects only, every one dropped before the next is made: a later object may get the address
+# (the id) of an earlier one
+DROP_FAMILIES = ('text objects',)
+
+# setup, name of the object, mutations applied between its insertions
+HISTORY_MUTATIONS = {
+    'list grows': ([['L', '[1]']], 'L', ['L.append(2)', 'L.clear()', 'L.append(-0.0)', 'L.__setitem__(0, 0.0)']),
+    'dict changes': ([['D', '{}']], 'D', ['D.__setitem__(1, 0.0)', 'D.__setitem__(True, -0.0)', 'D.clear()']),
+    'set changes': ([['S', 'set()']], 'S', ['S.add(1)', 'S.discard(1)', 'S.add(True)']),
+    'bytearray grows': ([['BA', 'bytearray(b"ab")']], 'BA', ['BA.extend(b"c")', 'BA.clear()']),
+    'text object': ([['T', 'Txt("a")']], 'T', ['setattr(T, "text", "b")', 'setattr(T, "text", "<\xe9>")',
+                                                'setattr(T, "text", "a")']),
+    'equal object': ([['Q', 'Eq(1, "first")']], 'Q', ['setattr(Q, "text", "second")', 'setattr(Q, "key", 2)',
+                                                       'setattr(Q, "text", "third")']),
+    'float with unit': ([['M', 'Amount(5, "EUR")']], 'M', ['setattr(M, "unit", "USD")', 'setattr(M, "unit", "")']),
+    'int with tag': ([['G', 'Tagged(7, "a")']], 'G', ['setattr(G, "tag", "b")']),
+    'exception arguments': ([['E', 'ValueError("a")']], 'E',
+                            ['setattr(E, "args", ("b",))', 'setattr(E, "args", ())', 'setattr(E, "args", (0.0,))',
+                             'setattr(E, "args", (-0.0,))', 'setattr(E, "args", (1, 2))',
+                             'setattr(E, "args", (True, 2.0))']),
+}
+
+
+def value_texts_of(v, codec):
+    """Accepted inserted texts of one non-string value: str(value); exceptions: their message."""
+    if isinstance(v, BaseException):
+        return exception_texts(v, codec)
+    return {str(v)}
+
+
+def confusable(a, b):
+    """a and b compare equal (either way) but print differently: what a shared conversion would mix up."""
+    try:
+        if not (a == b or b == a):
+            return False
+        return str(a) != str(b)
+    except Exception:
+        return False
+
+
+def match_concat(text, head, alternatives, tail):
+    """Is `text` == head + one alternative per position + tail?"""
+    if not text.startswith(head) or not text.endswith(tail) or len(text) < len(head) + len(tail):
+        return False
+    body = text[len(head):len(text) - len(tail)]
+    seen = set()
+
+    def rec(pos, i):
+        if (pos, i) in seen:
+            return False
+        seen.add((pos, i))
+        if i == len(alternatives):
+            return pos == len(body)
+        for a in alternatives[i]:
+            if body.startswith(a, pos) and rec(pos + len(a), i + 1):
+                return True
+        return False
+
+    return rec(0, 0)
